@@ -459,12 +459,13 @@ pub fn check_flavour(f: usize, got: &Pairs, model: &BTreeMap<Vec<u8>, Vec<u8>>) 
 }
 
 /// the read-only calls of C15; each returns a complaint only if the call itself misbehaves
-pub const RO_CALLS: [&str; 26] = [
+pub const RO_CALLS: [&str; 28] = [
     "get(present)", "get(absent)", "includes_key(present)", "includes_key(absent)", "len", "is_empty", "bulk_get",
     "iter(full)", "iter_mut(full)", "keys(full)", "values(full)", "into_iter(full)", "iter(partial)", "keys(partial)",
     "count_of_free_key_piece", "count_of_free_value_piece", "key_piece_size_stats", "value_piece_size_stats",
     "key_length_stats", "value_length_stats", "htx_filling_rate_per_mill", "read_fill_buffer", "flush", "sync_all+sync_data",
     "get_string(present+absent)", "bulk_get_string",
+    "iter with len()/is_empty() between the steps", "iter with get()/includes_key() between the steps",
 ];
 
 pub fn ro_call<T: Kt>(cfg: &ACfg, m: &mut FileDbMap<T>, db: &abyssiniandb::filedb::FileDb, call: usize, model: &BTreeMap<Vec<u8>, Vec<u8>>) -> Option<String> {
@@ -531,11 +532,20 @@ pub fn ro_call<T: Kt>(cfg: &ACfg, m: &mut FileDbMap<T>, db: &abyssiniandb::filed
             }
             m.get_string(&absent[..]).map(|_| ())
         }),
-        _ => guard(|| {
+        25 => guard(|| {
             let mut ks: Vec<&[u8]> = cfg.keys.iter().map(|k| &k[..]).collect();
             ks.push(&absent[..]);
             m.bulk_get_string(&ks).map(|_| ())
         }),
+        // an iterator kept open while other read-only calls run on the same map
+        26 => {
+            let _ = run_flavour(m, 7, n);
+            Out::Ok(())
+        }
+        _ => {
+            let _ = run_flavour(m, 9, n);
+            Out::Ok(())
+        }
     };
     r.failed()
 }
